@@ -129,7 +129,12 @@ void floyd_warshall(
     for(unsigned i=0;i<es.size();i++) {
         unsigned u=es[i].first, v=es[i].second;
         COLA_ASSERT(u<n&&v<n);
-        D[u][v] = D[v][u] = (eweights.size() > 0) ? eweights[i] : 1;
+        T w = (eweights.size() > 0) ? eweights[i] : 1;
+        // Keep the lightest of parallel edges, and never let a self-loop
+        // overwrite the zero diagonal.
+        if ((u != v) && (w < D[u][v])) {
+            D[u][v] = D[v][u] = w;
+        }
     }
     for(unsigned k=0; k<n; k++) {
         for(unsigned i=0; i<n; i++) {
